@@ -732,6 +732,153 @@ def hier_design(rng, depth=2, fan=3, wmax=8):
     return dict(hw=hw, top=top, kind='hier', inputs={'a': a}, outputs={'r': r}, desc=dict(depth=depth, fan=fan, w=w, nodes=cnt[0]))
 
 
+# ------------------------------------------------------------------------------------------------ interface-only blocks
+BBOX_KINDS = ['bb', 'shell', 'pass', 'half', 'prim', 'sprim', 'reg']
+
+
+def bbox_design(stages, w=16, vw=1, head='port', tail='port', side=True):
+    """structural module whose children are (partly) blocks WITHOUT behaviour: no propagate/clock, so py4hw registers them
+    neither as source nor as sink of the wires on their ports (vendor IP / black boxes, empty structural shells).
+      stages: list of kinds, stage k reads net t<k-1> (and the side net v<k-1>) and drives t<k> (and v<k>):
+        'bb'    interface-only leaf class (ports only)                     'shell'  interface-only leaf, ONE shared class per design
+        'pass'  structural block whose ports go straight to an inner 'bb'  'half'   structural block: data through a Buf, side port unused inside
+        'prim'  inlined primitive (Buf)   'sprim' structural block around a Not   'reg' library Reg (shared named module)
+      head: 'port' (t_-1 is the input port a) | 'none' (first stage has no data input: a pure source, a is unused)
+      tail: 'port' (last net is the output port r) | 'dangling' (last net is a local wire nobody reads, r driven by a Buf of a)
+      side: a second net v<k> of width vw runs beside every data net between two adjacent non-primitive stages"""
+    import py4hw
+    L = py4hw
+    hw, top = fresh()
+
+    def ports(self, a, v, r, vo):
+        if a is not None:
+            self.addIn('data_in', a)
+        if v is not None:
+            self.addIn('valid_in', v)
+        self.addOut('data', r)
+        if vo is not None:
+            self.addOut('valid', vo)
+
+    class Shell(L.Logic):                      # one class for all 'shell' stages
+        def __init__(self, parent, name, a, v, r, vo):
+            super().__init__(parent, name)
+            ports(self, a, v, r, vo)
+
+    def bb_class(k):
+        class BB(L.Logic):
+            def __init__(self, parent, name, a, v, r, vo):
+                super().__init__(parent, name)
+                ports(self, a, v, r, vo)
+        BB.__name__ = BB.__qualname__ = 'Vendor%d' % k
+        return BB
+
+    class Pass(L.Logic):
+        def __init__(self, parent, name, a, v, r, vo):
+            super().__init__(parent, name)
+            ports(self, a, v, r, vo)
+            bb_class(99)(self, 'ip', a, v, r, vo)
+
+    class Half(L.Logic):
+        def __init__(self, parent, name, a, v, r, vo):
+            super().__init__(parent, name)
+            ports(self, a, v, r, vo)
+            if a is not None:
+                L.Buf(self, 'b', a, r)
+            else:
+                L.Constant(self, 'c', 1, r)
+
+    class SPrim(L.Logic):
+        def __init__(self, parent, name, a, r):
+            super().__init__(parent, name)
+            self.addIn('a', a)
+            self.addOut('r', r)
+            L.Not(self, 'n', a, r)
+    a, r = hw.wire('a', w), hw.wire('r', w)
+    top.addIn('a', a)
+    top.addOut('r', r)
+    soft = ('bb', 'shell', 'pass', 'half')
+    cur, curv = (a if head == 'port' else None), None
+    n = len(stages)
+    for k, kind in enumerate(stages):
+        last = k == n - 1
+        nxt = r if (last and tail == 'port') else top.wire('t%d' % k, w)
+        nxtv = top.wire('v%d' % k, vw) if (side and kind in soft and not last and stages[k + 1] in soft) else None
+        nm = '%s%d' % (kind, k)
+        if kind in soft:
+            cls = dict(bb=bb_class(k), shell=Shell, **{'pass': Pass}, half=Half)[kind]
+            cls(top, nm, cur, curv, nxt, nxtv)
+        else:
+            src = cur
+            if src is None:
+                src = top.wire('k%d' % k, w)
+                L.Constant(top, 'c%d' % k, 5, src)
+            if kind == 'prim':
+                L.Buf(top, nm, src, nxt)
+            elif kind == 'sprim':
+                SPrim(top, nm, src, nxt)
+            else:
+                L.Reg(top, nm, src, nxt)
+        cur, curv = nxt, nxtv
+    if tail != 'port':
+        L.Buf(top, 'thru', a, r)
+    return dict(hw=hw, top=top, kind='bbox', inputs={'a': a}, outputs={'r': r},
+                desc=dict(stages=list(stages), w=w, vw=vw, head=head, tail=tail, side=side))
+
+
+def clkport_design(src='port', depth=1, holder='reg', clkname='clk25', w=8, inherited=True, pnames=('pixclk', 'ck')):
+    """multi-clock design whose second clock is an ordinary WIRE that reaches the block living in that domain through `depth`
+    levels of input ports:  Top[ clock wire = input port (src='port') or a local net driven by a divide-by-two register
+    (src='local') ] -> Wrap_1(ck, d, q) -> … -> Wrap_depth(ck, d, q){ [Reg r0 in the inherited domain] ; X in domain `clkname` }
+    where X is a Reg carrying its own ClockDriver (holder='reg') or a structural block around a Reg carrying it ('block').
+    depth = 0: X sits directly in Top."""
+    import py4hw
+    L = py4hw
+    hw, top = fresh()
+
+    class Dom(L.Logic):
+        def __init__(self, parent, name, d, q):
+            super().__init__(parent, name)
+            self.addIn('d', d)
+            self.addOut('q', q)
+            L.Reg(self, 'ff', d, q)
+
+    def payload(self, ck, d, q):
+        mid = d
+        if inherited:
+            mid = self.wire('mid', w)
+            L.Reg(self, 'r0', d, mid)
+        x = (L.Reg if holder == 'reg' else Dom)(self, 'r1', mid, q)
+        x.clockDriver = L.ClockDriver(clkname, 25E6, wire=ck)
+
+    class Wrap(L.Logic):
+        def __init__(self, parent, name, ck, d, q, lvl):
+            super().__init__(parent, name)
+            self.addIn(pnames[lvl % len(pnames)], ck)
+            self.addIn('d', d)
+            self.addOut('q', q)
+            if lvl > 1:
+                Wrap(self, 'wrap', ck, d, q, lvl - 1)
+            else:
+                payload(self, ck, d, q)
+    d, q = hw.wire('d', w), hw.wire('q', w)
+    top.addIn('d', d)
+    top.addOut('q', q)
+    if src == 'port':
+        ck = hw.wire('extclk', 1)
+        top.addIn('extclk', ck)
+    else:
+        ck = top.wire('vclk', 1)
+        nck = top.wire('nvclk', 1)
+        L.Not(top, 'inv', ck, nck)
+        L.Reg(top, 'div2', nck, ck)
+    if depth == 0:
+        payload(top, ck, d, q)
+    else:
+        Wrap(top, 'wrap', ck, d, q, depth)
+    return dict(hw=hw, top=top, kind='clkport', inputs={'d': d}, outputs={'q': q},
+                desc=dict(src=src, depth=depth, holder=holder, clkname=clkname, w=w, inherited=inherited))
+
+
 # ------------------------------------------------------------------------------------------------ helpers
 def all_objects(obj):
     out = [obj]
